@@ -95,6 +95,32 @@ fn strategy() -> BoxedStrategy<Case> {
         .boxed()
 }
 
+/// Decoder for the coverage-guided campaign (fuzz target fz_hist).
+pub fn case_from_bytes(data: &[u8]) -> Case {
+    let mut r = crate::gen::ByteReader::new(data);
+    let start = match r.below(8) {
+        0 => Start::NoHandshake,
+        1 => Start::LateHandshake(r.pick(&[300u32, 1190, 1210, 2390, 2410, 3000, 3590])),
+        _ => Start::HandshakeFirst,
+    };
+    let outgoing = r.bool();
+    let assign_first = r.bool();
+    let seed = r.u16() as u64;
+    let stall_s = if r.below(8) == 0 { 15 + r.u8() % 86 } else { 0 };
+    let mut arrivals = vec![];
+    while stall_s == 0 && !r.done() && arrivals.len() < 40 {
+        let dt = match r.below(3) {
+            0 => r.pick(&[5u32, 300, 600, 1190, 1199, 1201, 1210, 2000, 2390, 2410, 3000, 3590, 3610, 5000]),
+            1 => r.pick(&[300u32, 600, 900, 1100, 1150, 1190]),
+            _ => 1 + r.u16() as u32 % 4000,
+        };
+        let kind = r.pick(&[Kind::KeepAlive, Kind::KeepAlive, Kind::Choke, Kind::Unchoke, Kind::Interested, Kind::NotInterested, Kind::Have, Kind::Request, Kind::Cancel, Kind::UnknownId, Kind::HelperDelivers]);
+        arrivals.push((dt, kind));
+    }
+    let start = if stall_s > 0 && matches!(start, Start::LateHandshake(_)) { Start::HandshakeFirst } else { start };
+    Case { start, arrivals, outgoing, assign_first, stall_s, seed }
+}
+
 const TICK: f64 = 120.0;
 const EPS: f64 = 0.5;
 
@@ -319,6 +345,142 @@ pub fn check(c: &Case) -> Outcome {
     o
 }
 
+// ------------------------------------------------------------------ a remote that never stops sending keep-alives
+
+#[derive(Clone, Debug, Serialize, Deserialize)]
+pub struct FloodCase {
+    /// the harness moves the clock in steps of this many seconds and lets the connection task run in between
+    pub step_s: u8,
+    pub outgoing: bool,
+    /// the remote handshakes first (otherwise nothing but keep-alives ever arrives)
+    pub handshake: bool,
+    pub seed: u64,
+}
+
+fn flood_strategy() -> BoxedStrategy<FloodCase> {
+    (prop::sample::select(vec![20u8, 30, 40, 60]), any::<bool>(), prop::bool::weighted(0.8), any::<u64>())
+        .prop_map(|(step_s, outgoing, handshake, seed)| FloodCase { step_s, outgoing, handshake, seed })
+        .boxed()
+}
+
+/// Whenever the connection task looks at its socket there are more keep-alives to read, for the whole run: before
+/// every poll of the task the harness fills the socket (2 MB send buffer) with keep-alives, and the task is polled with
+/// a cooperative-scheduling budget of 8 reads, so a poll ends because the budget is used up, never because the socket is
+/// empty (in production: a remote saturating the link, 128 reads of 64 KiB per poll). That is still "nothing but
+/// keep-alives": the connection must be closed after three intervals and the client must send its own keep-alives.
+pub fn check_flood(c: &FloodCase) -> Outcome {
+    use std::io::Write;
+    use std::os::unix::io::AsRawFd;
+    let mut o = Outcome::new();
+    o.nontrivial = true;
+    fresh_cwd();
+    let t = Torrent::new(Geometry::single(4, 16, c.seed));
+    let ih = t.info_hash();
+    let c2 = c.clone();
+    let res = swarm::run(c.seed, &t, move |w: &mut World| {
+        Box::pin(async move {
+            let c = c2;
+            let remote_id = [b'k'; 20];
+            let t0 = w.now().as_secs_f64();
+            let conn = w.connect(if c.outgoing { Some(remote_id) } else { None });
+            let addr = w.conns[conn].addr.clone();
+            if let Some(sock) = w.conns[conn].sock.as_ref() {
+                let v: libc::c_int = 2 * 1024 * 1024;
+                unsafe {
+                    libc::setsockopt(sock.as_raw_fd(), libc::SOL_SOCKET, libc::SO_SNDBUF, &v as *const _ as *const libc::c_void, std::mem::size_of::<libc::c_int>() as libc::socklen_t);
+                }
+            }
+            if c.handshake {
+                w.send_frame(conn, &RFrame::handshake(ih, remote_id));
+                w.send_frame(conn, &RFrame::Bitfield(wire::bits_to_bytes(&[true; 4])));
+            }
+            w.settle().await;
+            let chunk = vec![0u8; 64 * 1024];
+            let mut written = 0u64;
+            let mut min_fill = u64::MAX;
+            let step = Duration::from_secs(c.step_s as u64);
+            while w.now().as_secs_f64() < t0 + 600.0 && w.handler_alive(conn) && w.fatal().is_none() {
+                tokio::time::advance(step).await;
+                for _ in 0..2 {
+                    // fill the socket with keep-alives (always whole ones)
+                    let mut fill = 0u64;
+                    if let Some(sock) = w.conns[conn].sock.as_mut() {
+                        loop {
+                            match sock.write(&chunk) {
+                                Ok(n) => {
+                                    fill += n as u64;
+                                    if n % 4 != 0 {
+                                        // finish the cut keep-alive
+                                        let rest = 4 - n % 4;
+                                        let mut done = 0;
+                                        while done < rest {
+                                            match sock.write(&chunk[..rest - done]) {
+                                                Ok(k) => done += k,
+                                                Err(_) => std::thread::yield_now(),
+                                            }
+                                        }
+                                    }
+                                }
+                                Err(_) => break,
+                            }
+                        }
+                    }
+                    written += fill;
+                    w.poll_once_with_budget(8).await;
+                }
+                let _ = &mut min_fill;
+            }
+            w.settle().await;
+            let finished = w.conns[conn].finished_at.map(|d| d.as_secs_f64());
+            let reason = w.conns[conn].kill_reason.clone();
+            let in_snapshot = w.snapshot().peers.iter().any(|p| p.addr == addr);
+            let kas: Vec<f64> = w.conns[conn].frames.iter().filter(|(_, f)| matches!(f, RFrame::KeepAlive)).map(|(t, _)| t.as_secs_f64()).collect();
+            (t0, finished, reason, in_snapshot, kas, written, w.fatal(), w.now().as_secs_f64())
+        })
+    });
+    let (t0, finished, reason, in_snapshot, kas, written, fatal, end) = match res {
+        Ok(x) => x,
+        Err(p) => {
+            o.fail(panic_signature(&p), format!("runtime panic: {}", p));
+            return o;
+        }
+    };
+    if let Some((sig, d)) = fatal {
+        o.fail(sig, d);
+        return o;
+    }
+    if std::env::var("VERIF_DEBUG").is_ok() {
+        eprintln!("flood: written {} finished {:?} kas {:?}", written, finished, kas);
+    }
+    o.class_if(written > 4_000_000, "more-than-4MB-of-keep-alives");
+    o.class_if(c.outgoing, "outgoing");
+    o.class_if(!c.handshake, "never-handshakes");
+    let slack = c.step_s as f64 + EPS;
+    match finished {
+        None => o.fail(
+            "silent-connection-not-closed",
+            format!("a remote that sends nothing but keep-alives ({} bytes of them, without pause) is still connected {:.0} s after the start; reason {:?}", written, end - t0, reason),
+        ),
+        Some(f) => {
+            if f > t0 + 360.0 + slack {
+                o.fail("silent-connection-closed-late", format!("nothing but keep-alives arrived; closed {:.1} s after the start (> 360 s + one step of {} s)", f - t0, c.step_s));
+            }
+            if in_snapshot {
+                o.fail("peer-state-not-released", format!("connection closed at {:.1}s but the peer is still registered in the manager", f));
+            }
+        }
+    }
+    let close = finished.unwrap_or(end);
+    for k in 1..=2 {
+        let tick = t0 + TICK * k as f64;
+        if tick + slack < close && !kas.iter().any(|t| *t >= tick - EPS && *t <= tick + slack) {
+            o.fail("keep-alive-missing-at-tick", format!("no keep-alive from the client between {:.0} s and {:.0} s (its keep-alives: {:?}) while the remote floods keep-alives", tick - t0, tick - t0 + slack, kas));
+            break;
+        }
+    }
+    o
+}
+
 pub fn def() -> PropDef {
     PropDef {
         id: "C20",
@@ -327,12 +489,21 @@ pub fn def() -> PropDef {
             "virtual time: tokio's paused clock; the harness drains sockets every virtual second, so keep-alive timestamps are accurate to 1 s",
             "arrivals closer than 0.3 s to a client tick are moved: their order against the tick is decided by select!'s internal coin",
         ],
-        subs: vec![Sub {
+        subs: vec![
+            Sub {
+                name: "flood",
+                cases: |t| t.pick(32, 320),
+                run: |ctx| run_proptest(ctx, "flood", flood_strategy(), check_flood),
+                replay: |v| replay_case::<FloodCase>(v, check_flood),
+                min_class: &[("more-than-4MB-of-keep-alives", 0.5)],
+            },
+            Sub {
             name: "schedules",
             cases: |t| t.pick(15_000, 200_000),
             run: |ctx| run_proptest(ctx, "schedules", strategy(), check),
             replay: |v| replay_case::<Case>(v, check),
             min_class: &[("lively>360s-all-gaps<120s", 0.05), ("arrival-within-1.5s-of-a-tick", 0.1822), ("silence>240s-inside-schedule", 0.0703), ("piece-assigned", 0.15), ("never-handshakes", 0.05), ("late-handshake", 0.05), ("other-peer-completes-pieces-meanwhile", 0.07), ("task-not-scheduled-across-a-tick", 0.05)],
-        }],
+        },
+        ],
     }
 }
